@@ -97,8 +97,8 @@ type Scenario struct {
 	MaxChunkSrv int `json:"max_chunk_srv,omitempty"`
 	// NoRecvC2S / NoRecvS2C: the application receiving that direction never
 	// calls Recv (the endpoint's receive buffer fills up).
-	NoRecvC2S bool       `json:"norecv_c2s,omitempty"`
-	NoRecvS2C bool       `json:"norecv_s2c,omitempty"`
+	NoRecvC2S bool `json:"norecv_c2s,omitempty"`
+	NoRecvS2C bool `json:"norecv_s2c,omitempty"`
 	// SlowRecvC2S / SlowRecvS2C: the application receiving that direction
 	// stays out of Recv for a while: StartMs before its first call, and
 	// PauseMs after every EveryN-th message (the endpoint's receive buffer
@@ -106,12 +106,12 @@ type Scenario struct {
 	// packet).
 	SlowRecvC2S *SlowRecv  `json:"slow_recv_c2s,omitempty"`
 	SlowRecvS2C *SlowRecv  `json:"slow_recv_s2c,omitempty"`
-	Client    TimeoutCfg `json:"client"`
-	Server    TimeoutCfg `json:"server"`
-	LatC2SMs  int        `json:"lat_c2s_ms"`
-	LatS2CMs  int        `json:"lat_s2c_ms"`
-	C2S       []Msg      `json:"c2s,omitempty"`
-	S2C       []Msg      `json:"s2c,omitempty"`
+	Client      TimeoutCfg `json:"client"`
+	Server      TimeoutCfg `json:"server"`
+	LatC2SMs    int        `json:"lat_c2s_ms"`
+	LatS2CMs    int        `json:"lat_s2c_ms"`
+	C2S         []Msg      `json:"c2s,omitempty"`
+	S2C         []Msg      `json:"s2c,omitempty"`
 
 	FaultsC2S       []Decision `json:"faults_c2s,omitempty"`
 	FaultsS2C       []Decision `json:"faults_s2c,omitempty"`
